@@ -1,4 +1,5 @@
 import FluentVerif.Proto.DecodeLemmas2
+import FluentVerif.Proto.Chunk
 /-! # C10 — decoders are total on arbitrary bytes (decoder half)
 
 * `C10_noPanic_T`: for every byte string, path and receiver the decoder returns a value or an
@@ -59,6 +60,36 @@ theorem C10_prefix_Ping (p recv b v) (h : Ping.unmarshal p recv b = .ok v []) (q
 theorem C10_prefix_Ack (p recv b v) (h : Ack.unmarshal p recv b = .ok v []) (q y : Bytes)
     (hb : b = q ++ y) (hy : y ≠ []) : Ack.unmarshal p recv q = .err :=
   prefix_rejected _ (fun _ _ _ => Ack.unmarshal_sound) (Ack.unmarshal_noPanic p recv) b v h q y hb hy
+
+theorem getChunkKeys_noPanic : ∀ (n : Nat) (b : Bytes), (getChunkKeys n b).NoPanic
+  | 0, _ => by unfold getChunkKeys; exact Res.noPanic_err
+  | n+1, b => by
+    unfold getChunkKeys
+    refine (readMapKey_noPanic _ b).bind fun k b1 => ?_
+    split
+    · exact readMapKey_noPanic _ b1
+    · exact (skip_noPanic b1).bind fun _ b2 => getChunkKeys_noPanic n b2
+
+/-- `GetChunk` (hence `RawMessage.Chunk`) never panics, whatever the bytes -/
+theorem C10_noPanic_getChunk (b : Bytes) : (getChunk b).NoPanic := by
+  unfold getChunk
+  refine (readArrayHeader_noPanic b).bind fun sz b1 => ?_
+  split
+  · exact Res.noPanic_err
+  · refine (skip_noPanic b1).bind fun _ b2 => ?_
+    refine Res.NoPanic.bind ?_ fun _ b3 => (skip_noPanic b3).bind fun _ b4 =>
+      (readMapHeader_noPanic b4).bind fun n b5 => getChunkKeys_noPanic n b5
+    split
+    · split
+      · exact Res.noPanic_err
+      · exact skip_noPanic b2
+    · exact Res.noPanic_ok _ _
+
+/-- EventTime payload decoding is total: a value or an error -/
+theorem C10_eventTime_total (p : Bytes) : decodeET p = none ∨ ∃ i, decodeET p = some i := by
+  cases h : decodeET p with
+  | none => exact Or.inl rfl
+  | some i => exact Or.inr ⟨i, rfl⟩
 
 -- non-vacuity: an accepted input exists, and its strict prefix is rejected
 example : (Message.unmarshal .stream {} [0x93, 0xa1, 0x79, 0x02, 0x80]).rest? = some [] := by decide
